@@ -29,13 +29,20 @@ EXPLANATION = ('Unbounded Coq theorems (all S, P, template bytes) over the hand 
                'relocation offset with apply\'s result, the exported table agrees with the model on every size. Refuted at '
                'full strength (machine-checked witnesses, replayed through the real linker on every run, known findings): '
                'positive overflow accepted by b_imm12/b_imm20/bc_imm11/imm24/rel32, addend ignored by every class but rel32, '
-               'Thumb bl_imm11 never writes J1/J2 (wrong target from 4 MiB). Classes modelled and checked by correspondence '
-               'and by the link-level spec oracle ONLY (no theorem): arm ldr_imm12, adr_imm12 (apply-level only), rel8 (unused '
-               'by any instruction); arm:thumb lit8, wrap_new11, rel8, bl_imm11, b_imm11_imm6 (apply-level only; its TODO '
-               'i1/i2 encoding is not checked against the ISA); x86_64 jmp8, abs64; riscv AbsAddr32Relocation (shadowed in '
-               'relocation_map by data absaddr32). NOT covered at all (listed in evidence stages.reloc_table.not_covered): '
+               'Thumb bl_imm11 never writes J1/J2 (wrong target from 4 MiB). Added in the deepening round: exactness theorems '
+               'for arm:thumb wrap_new11 (b), rel8 (b<c>), lit8 (ldr literal), bl_imm11 (exact within +-4 MiB for the '
+               'assembler template J1=J2=1), arm ldr_imm12 (ldr literal, template field zero), x86_64 jmp8 and abs64; and TIE T for the class bodies: the calc/apply methods of '
+               '24 modelled classes are flattened (tools/props/c11_flatten.py, fail-closed) and translated by py2coq into '
+               'Gen/reloc_bodies.v on every run, and c11_tie_bodies proves Model.Reloc.apply equal to them for all arguments, '
+               'so an edit of a calc/apply body breaks the proof build (BitView.__setitem__, the default token apply and '
+               'bytearray item assignment inside them remain the hand models bv_set / tok_apply / set_nth). Classes that stay '
+               'tie H: arm ldr_imm12 (has a theorem), adr_imm12, thumb b_imm11_imm6 (NO theorem: correspondence only) '
+               '(in-place |= on bytes; b_imm11_imm6 TODO i1/i2 encoding not checked against the ISA), arm rel8 (unused), riscv '
+               'AbsAddr32Relocation (shadowed in relocation_map by data absaddr32). NOT covered at all (listed in evidence stages.reloc_table.not_covered): '
                'avr, m68k, microblaze, mips, msp430, or1k, xtensa, mcs6500 relocation classes')
-TRUSTED = ['hand model coq/Model/Reloc.v (cross-checked per run against Relocation.apply of every modelled class and '
+TRUSTED = ['tools/props/c11_flatten.py (fail-closed AST flattening of the relocation calc/apply methods into plain functions) '
+           '+ tools/py2coq.py: Gen/reloc_bodies.v',
+           'hand model coq/Model/Reloc.v (cross-checked per run against Relocation.apply of every modelled class and '
            'against Linker._do_relocation through ppci.api.link)',
            'tools/py2coq.py for wrap_negative / align / encode_imm32 (Gen.bitfun)',
            'reading of the ISA manuals in coq/Spec/RelocSpec.v (RISC-V B/J/U/I/CJ/CB immediates, ARM B/BL/LDR literal, '
@@ -55,7 +62,10 @@ MANIFEST = {
             'section address + offset and that _do_relocation patches exactly the relocation site. The full-strength rejection and '
             'addend clauses are REFUTED for the current code (positive overflow wraps; addend ignored except rel32; Thumb BL beyond '
             '4 MiB) with machine-checked witnesses that are re-executed through ppci.api.link on every run and recorded as known findings. '
-            'Thumb/ARM literal loads, x86 jmp8/abs64 are modelled and checked differentially only; avr/m68k/microblaze/mips/msp430/or1k/'
+            'Thumb b/b<c>/ldr-literal/bl (bl within +-4 MiB), x86 jmp8/abs64 also have exactness theorems; the hand model of the '
+            'class bodies is proved equal to definitions regenerated from the source (flatten + py2coq) for 24 classes, so a '
+            'source edit of calc/apply breaks the proof build; arm ldr_imm12/adr_imm12 and thumb b_imm11_imm6 are modelled and '
+            'checked differentially only; avr/m68k/microblaze/mips/msp430/or1k/'
             'xtensa/mcs6500 relocation classes are not covered',
     'note': 'trusted: Coq kernel; hand model Model/Reloc.v (cross-checked per run: ~1200 apply cases over 27 classes and ~400 links through '
             'the real linker); py2coq for wrap_negative/align/encode_imm32; the reading of the ISA manuals in Spec/RelocSpec.v. '
@@ -105,7 +115,36 @@ def regen(ctx):
     from props import c39
     infos, hashes = ctx.gen_T('bitfun', 'ppci/utils/bitfun.py', c39.ENTRIES)
     rows = export_table(ctx)
+    gen_reloc_bodies(ctx, infos)
     return rows
+
+
+def gen_reloc_bodies(ctx, bitfun_infos):
+    """tie T for the class bodies: flatten (props/c11_flatten.py) + py2coq -> coq/Gen/reloc_bodies.v from the
+    current source. Every modelled class must flatten and translate (fail-closed)."""
+    import py2coq
+    from vlib import REPO, TieBroken
+    from props import c11_flatten as fl
+    try:
+        flat_src, entries, modes, failed = fl.flat_source(REPO, KINDS)
+        if failed:
+            raise py2coq.Unsupported('; '.join('%s: %s' % kv for kv in sorted(failed.items())))
+        flat_path = os.path.join(ctx.work, 'reloc_flat.py')
+        with open(flat_path, 'w') as f:
+            f.write(flat_src)
+        text, infos, hashes = py2coq.translate_module(flat_path, entries,
+                                                      ['From PV Require Import Gen.bitfun Model.Reloc.'],
+                                                      known=fl.known_infos(bitfun_infos))
+    except (py2coq.Unsupported, SyntaxError, OSError) as ex:
+        ctx.log('C11 relocation bodies cannot be regenerated from the source: %s' % ex)
+        ctx.failed_stages.append(('translate', 'relocation calc/apply bodies: %s' % ex))
+        raise TieBroken(str(ex))
+    text = text.replace(text.splitlines()[0],
+                        '(* GENERATED by tools/props/c11_flatten.py (flatten) + tools/py2coq.py from the calc/apply methods of '
+                        'the modelled relocation classes of /repo/ppci/arch — do not edit; regenerated on every check run *)', 1)
+    changed = ctx.write_gen('reloc_bodies', text)
+    ctx.cov['stages']['gen_reloc_bodies'] = {'functions': hashes, 'modes': modes, 'changed_on_disk': changed}
+    return infos
 
 
 # ---------------------------------------------------------------- apply-level correspondence
@@ -609,7 +648,7 @@ def run(ctx):
         ctx.cov['stages']['apply_distribution'] = dist
         ctx.cov['distinct_nontrivial'] += sum(1 for r in recs if isinstance(r[5], OkV) and r[2] != r[4])
     # ---- proofs
-    ok, _ = ctx.build(['Proofs/C11_final.vo'])
+    ok, _ = ctx.build(['Proofs/C11_final.vo', 'Proofs/C11_tie.vo', 'Proofs/C11_relocs3.vo', 'Proofs/C11_relocs4.vo'])
     if ok:
         ctx.check_props('Props/C11.v')
     # ---- search through the real linker (always; deeper when something failed or tier is thorough)
